@@ -308,6 +308,7 @@ def build_val(sh, terms, islist=False):
     return leaf_val(sh, terms[0])
 
 
+TRANSPARENT = [False]   # contract option 'transparent': element reads of computed sequences return the defining term
 _MEMO = {}
 SCOPE = []   # specification variables (z3 constants) bound by the quantifiers currently being evaluated
 DEFS = []    # (symbol name, definitional axiom) of the computed sequences created so far
@@ -334,20 +335,25 @@ def occurs(v, t):
 
 class Seq(Val):
     """list / 1-D array / n x k array: length n, offset off, one z3 array per leaf."""
-    __slots__ = ("n", "off", "arrs", "esh", "kind", "root")
+    __slots__ = ("n", "off", "arrs", "esh", "kind", "root", "fn")
 
-    def __init__(self, n, off, arrs, esh, kind="array", root=None):
+    def __init__(self, n, off, arrs, esh, kind="array", root=None, fn=None):
         self.n = n
         self.off = off
         self.arrs = list(arrs)
         self.esh = esh
         self.kind = kind  # 'array' | 'list'
         self.root = root  # name of the parameter whose memory this value (or view) aliases, else None
+        self.fn = fn      # computed sequences: element k as a function of k (transparent element access, see at())
 
     def idx(self, i):
         return z3.simplify(self.off + i) if z3.is_int_value(self.off) and z3.is_int_value(i) else self.off + i
 
     def at(self, i):
+        if self.fn is not None and TRANSPARENT[0]:
+            # computed sequence: hand out the defining term itself instead of a read of the definitional array, so that
+            # no equality reasoning through definitions is needed (the arrays remain for Sum / uninterpreted functions)
+            return self.fn(i)
         j = self.idx(i)
         return build_val(self.esh, [z3.Select(a, j) for a in self.arrs])
 
@@ -365,8 +371,9 @@ class Seq(Val):
         """lo, hi already clamped: 0 <= lo, hi <= n (terms)."""
         ln = z3.If(hi >= lo, hi - lo, z3.IntVal(0))
         # NumPy basic slices are views (alias the base); Python list slices are copies
+        f = self.fn
         return Seq(z3.simplify(ln), z3.simplify(self.off + lo), self.arrs, self.esh, self.kind,
-                   self.root if self.kind == "array" else None)
+                   self.root if self.kind == "array" else None, (lambda k: f(lo + k)) if f is not None else None)
 
     def column(self, k):
         if self.esh.kind != "tup":
@@ -376,7 +383,9 @@ class Seq(Val):
             start += len(flatten_shape(a))
         sub = self.esh.args[k]
         cnt = len(flatten_shape(sub))
-        return Seq(self.n, self.off, self.arrs[start:start + cnt], sub, "array", self.root)
+        f = self.fn
+        return Seq(self.n, self.off, self.arrs[start:start + cnt], sub, "array", self.root,
+                   (lambda i: f(i).items[k]) if f is not None else None)
 
     @staticmethod
     def from_fn(n, esh, fn, kind="array"):
@@ -407,7 +416,10 @@ class Seq(Val):
                 sel = z3.Select(arr, k)
                 DEFS.append((nm, z3.ForAll(fvs + [k], sel == t, patterns=[sel])))
             arrs.append(arr)
-        return Seq(n, z3.IntVal(0), arrs, esh, kind)
+
+        def conv(i):
+            return build_val(esh, flatten_val(esh, fn(i)))     # coerced to the element shape (e.g. int -> real)
+        return Seq(n, z3.IntVal(0), arrs, esh, kind, None, conv)
 
     def key(self):
         """terms identifying the contents (for uninterpreted functions of a slice)."""
